@@ -236,11 +236,15 @@ def impl_builtin(case):
         X = core.prior_use(det, dict(case, prior=case.get("prior", [None, None, "same-object"][core._bits(case, 24, 3)])),
                            np.array(case["X"], dtype=float), X)
         if case.get("via") == "transform_scores":
-            opt = [float(v) for v in det.transform_scores(X).values]
+            held = det.transform_scores(X)
             y = det.predict(X)
         else:
             y = det.predict(X)
-            opt = [float(v) for v in det.scores.values]
+            held = det.scores
+        if core._bits(case, 40, 2) == 0:  # the caller keeps the scores while ANOTHER instance works on other data of the same length
+            Y = np.array(case["X"], dtype=float)[::-1] * 2.0 + 1.0
+            PELT(mk(), min_segment_length=m).fit(Y).predict(Y)
+        opt = [float(v) for v in held.values]
         cps = [int(v) for v in y["ilocs"]]
         pen = float(det.penalty_)
         # the cost table as the implementation itself evaluates it (fresh scorer)
